@@ -173,5 +173,20 @@ theorem gmres_hh_optimal_krylov (m : Nat) (hmn : m + 1 < n)
   rw [hspan] at h2 h3
   exact ⟨xk, h1, h2, h3⟩
 
+include hdef hsq hsq0 hE in
+/-- … hence the preconditioned residual norm does not increase from one inner iteration to the next -/
+theorem gmres_hh_monotone (m : Nat) (hmn : m + 2 < n)
+    (hbeta : sqrt (e.a (M (b - A x0)) (M (b - A x0))) ≠ 0)
+    (hsub : ∀ j, j < m → F ((St (m+1)).cols.getD j []) (j + 1) ≠ 0)
+    (hnbr : ∀ i, i < m + 1 → Rent (St (m+1)).rcols i i ≠ 0)
+    (hsub' : ∀ j, j < m + 1 → F ((St (m+2)).cols.getD j []) (j + 1) ≠ 0)
+    (hnbr' : ∀ i, i < m + 2 → Rent (St (m+2)).rcols i i ≠ 0) :
+    ∃ xk xk', (St (m+1)).xs.getLast? = some xk ∧ (St (m+2)).xs.getLast? = some xk' ∧
+      e.en (M b - (M ∘ₗ A) xk') ≤ e.en (M b - (M ∘ₗ A) xk) := by
+  obtain ⟨xk, h1, h2, _⟩ := gmres_hh_optimal_krylov A AH M e E sqrt n b x0 hdef hsq hsq0 hE m (by omega) hbeta hsub hnbr
+  obtain ⟨xk', h1', _, h3'⟩ := gmres_hh_optimal_krylov A AH M e E sqrt n b x0 hdef hsq hsq0 hE (m+1) hmn hbeta
+    hsub' hnbr'
+  exact ⟨xk, xk', h1, h1', h3' xk (PCG.kry_mono (by omega) h2)⟩
+
 #print axioms gmres_hh_optimal_krylov
 end PyamgV.C07
